@@ -88,16 +88,23 @@ pub fn infer_probes(text: &str) -> Vec<ProbeType> {
 
 /// diagnostics (code, message) the analyzer reports for `text` with the default configuration
 pub fn diagnostics(text: &str) -> Vec<(String, String)> {
-    let mut ws = VirtualWorkspace::new();
-    let file_id = ws.def(text);
+    let mut ws = VirtualWorkspace::new_with_init_std_lib();
+    diagnostics_in(&mut ws, text).into_iter().map(|(c, m, _)| (c, m)).collect()
+}
+
+/// diagnostics (code, message, 0-based line) of `text` analysed as a new file of `ws`
+pub fn diagnostics_in(ws: &mut VirtualWorkspace, text: &str) -> Vec<(String, String, u32)> {
+    // one fixed file name: every call replaces the previous program
+    let file_id = ws.def_file("vh_flow_probe.lua", text);
     let res = ws.analysis.diagnose_file(file_id, Default::default());
     let mut out = Vec::new();
     for d in res.unwrap_or_default() {
         let code = match d.code {
-            Some(lsp_code) => format!("{:?}", lsp_code),
+            Some(lsp_types::NumberOrString::String(s)) => s,
+            Some(lsp_types::NumberOrString::Number(n)) => n.to_string(),
             None => String::new(),
         };
-        out.push((code, d.message));
+        out.push((code, d.message, d.range.start.line));
     }
     out
 }
@@ -127,7 +134,7 @@ pub fn run_vm(text: &str) -> Result<Vec<(i64, String)>, String> {
     use luars::{Lua, LuaApi, LuaValue, SafeOption};
     TRACE.with(|t| t.borrow_mut().clear());
     let mut lua = Lua::new(SafeOption::default());
-    let _ = lua.open_stdlibs(&[luars::Stdlib::Basic]);
+    let _ = lua.open_stdlibs(&[luars::Stdlib::Basic, luars::Stdlib::String]);
     let _ = lua.set_global("p", LuaValue::cfunction(probe_fn));
     match lua.load(text).exec() {
         Ok(()) => {}
